@@ -1127,15 +1127,17 @@ static void part_blk(void) {
 }
 
 static void run(void) {
+	const char *only = getenv("C14_PART");     /* debugging aid: run one part only */
 	imprints_init();
 	calibrate();
 	blk_calibrate();
-	part_rxc();
-	part_flt();
-	part_blk();
-	part_e2e();
-	part_tx();
-	part_rx();
+#define PART(name, fn) if (!only || strcmp(only, name) == 0) fn()
+	PART("rxc", part_rxc);
+	PART("flt", part_flt);
+	PART("blk", part_blk);
+	PART("e2e", part_e2e);
+	PART("tx", part_tx);
+	PART("rx", part_rx);
 }
 
 int main(int argc, char **argv) {
